@@ -87,6 +87,22 @@ func (it *DescendingEntryIterator) Next() *Entry {
 	return it.prevEntry()
 }
 
+// Removes from the underlying collection the last element returned.
+// Unlike the ascending Remove, the cursor must not be moved to lastReturned when that
+// node has two children: deleteEntry copies the successor into it, and the successor
+// has already been visited when descending.
+func (it *DescendingEntryIterator) Remove() {
+	if it.lastReturned == nil {
+		panic("DescendingEntryIterator: illegal state")
+	}
+	if it.expectedVersion != it.owner.version {
+		panic("DescendingEntryIterator: concurrent modification")
+	}
+	it.owner.deleteEntry(it.lastReturned)
+	it.lastReturned = nil
+	it.expectedVersion = it.owner.version
+}
+
 type KeyIterator struct {
 	EntryIterator
 }
